@@ -1,7 +1,7 @@
 ----------------------------- MODULE TRACE_Repl -----------------------------
 (* Validation of system traces recorded from a real primary and real replicas (C13 system clause, C14, C15).
    The harness logs, in the order of its single driver:
-     reset | w(op) wret | flush | join | rrestart | cwr(refused) | s(st, x, rep) | quiesce | conv(pst) | noconv
+     reset | w(op) wret | flush | join | rstop | rrestart(rcount) | cwr(refused) | s(st, x, rep) | quiesce | conv(pst) | noconv
      fault(mode) | inv(c, op) ret(c, op) | ops(c, n) | hang(c, op) | topo(dropped) | hconv(ok) | end | error
    w is logged BEFORE the primary call (primary order = order of w events: one driver), s is one atomic sample of the
    replica's whole state (st), the number of keys outside the model (x) and the applied sequence number the replica
@@ -34,10 +34,10 @@ VARIABLES l,       \* position in the trace
           wr,      \* 1 while a primary write of a system scenario is outstanding (w ... wret)
           busy,    \* clients of a fault scenario with an operation outstanding (inv ... ret)
           stalled, \* number of attached clients that never read
-          once     \* TRUE while every entry can have reached the replica at most once (no restart from sequence 1 so far)
+          extra    \* entries the replica engine was handed in earlier lives and is handed AGAIN (0 unless it restarted from 1)
 
 Trace == ndJsonDeserialize("trace.ndjson")
-tvars == <<l, ents, nseq, base, lo, rep, wr, busy, stalled, once>>
+tvars == <<l, ents, nseq, base, lo, rep, wr, busy, stalled, extra>>
 
 None == [k \in TKeys |-> "NONE"]
 Ev(e) == l <= Len(Trace) /\ Trace[l].e = e /\ l' = l + 1
@@ -48,58 +48,60 @@ Overlay(b, n) == [k \in TKeys |->
                     LET is == {i \in 1..n : ents[i].k = k} IN
                     IF is = {} THEN b[k] ELSE Norm(ents[CHOOSE i \in is : \A j \in is : j <= i].v)]
 
-TInit == TLCSet(1, 0) /\ l = 1 /\ ents = <<>> /\ nseq = 1 /\ base = None /\ lo = 0 /\ rep = 0 /\ wr = 0 /\ busy = {} /\ stalled = 0 /\ once = TRUE
+TInit == TLCSet(1, 0) /\ l = 1 /\ ents = <<>> /\ nseq = 1 /\ base = None /\ lo = 0 /\ rep = 0 /\ wr = 0 /\ busy = {} /\ stalled = 0 /\ extra = 0
 
-TReset == /\ Ev("reset") /\ ents' = <<>> /\ nseq' = 1 /\ base' = None /\ lo' = 0 /\ rep' = 0 /\ wr' = 0 /\ busy' = {} /\ stalled' = 0 /\ once' = TRUE
+TReset == /\ Ev("reset") /\ ents' = <<>> /\ nseq' = 1 /\ base' = None /\ lo' = 0 /\ rep' = 0 /\ wr' = 0 /\ busy' = {} /\ stalled' = 0 /\ extra' = 0
 TW == /\ Ev("w") /\ wr = 0
       /\ ents' = ents \o [i \in 1..Len(Trace[l].op) |-> [k |-> Trace[l].op[i].k, v |-> Trace[l].op[i].v, seq |-> nseq]]
-      /\ nseq' = nseq + 1 /\ wr' = 1 /\ UNCHANGED <<base, lo, rep, stalled, once, busy>>
-TWRet == Ev("wret") /\ wr = 1 /\ wr' = 0 /\ UNCHANGED <<ents, nseq, base, lo, rep, stalled, once, busy>>
-TPlain == (Ev("flush") \/ Ev("join")) /\ UNCHANGED <<ents, nseq, base, lo, rep, wr, stalled, once, busy>>
+      /\ nseq' = nseq + 1 /\ wr' = 1 /\ UNCHANGED <<base, lo, rep, stalled, extra, busy>>
+TWRet == Ev("wret") /\ wr = 1 /\ wr' = 0 /\ UNCHANGED <<ents, nseq, base, lo, rep, stalled, extra, busy>>
+TPlain == (Ev("flush") \/ Ev("join") \/ Ev("rstop")) /\ UNCHANGED <<ents, nseq, base, lo, rep, wr, stalled, extra, busy>>
 \* intended design: a restarted replica keeps what it applied and its position
-TRestart == Ev("rrestart") /\ UNCHANGED <<ents, nseq, base, lo, rep, wr, stalled, once, busy>>
+TRestart == Ev("rrestart") /\ UNCHANGED <<ents, nseq, base, lo, rep, wr, stalled, extra, busy>>
 \* KNOWN FINDING KF_C13_restart_from_one: Manager.startReplica starts every replica at sequence 0, so after a restart
 \* the primary's log is applied again from its first entry ON TOP of what the replica holds, and the reported
-\* sequence starts again at 0
+\* sequence starts again at 0; every entry it had been handed before (rcount at the restart) is handed to it once more.
+\* The action describes exactly that: a replica that does NOT end up with the whole log - skips entries, does not converge -
+\* is no instance of it (TConv counts the entries handed over: Len(ents) + extra)
 TRestartFromOne == /\ KF_RestartFromOne /\ Ev("rrestart")
-                   /\ base' = Overlay(base, lo) /\ lo' = 0 /\ rep' = 0 /\ once' = FALSE
+                   /\ base' = Overlay(base, lo) /\ lo' = 0 /\ rep' = 0 /\ extra' = Trace[l].rcount
                    /\ UNCHANGED <<ents, nseq, wr, stalled, busy>>
-TCwr == Ev("cwr") /\ Trace[l].refused /\ UNCHANGED <<ents, nseq, base, lo, rep, wr, stalled, once, busy>>
+TCwr == Ev("cwr") /\ Trace[l].refused /\ UNCHANGED <<ents, nseq, base, lo, rep, wr, stalled, extra, busy>>
 TSample == /\ Ev("s") /\ Trace[l].x = 0
            /\ Trace[l].rep >= rep /\ rep' = Trace[l].rep
            /\ \E n \in lo..Len(ents) :
                 /\ \A k \in TKeys : Trace[l].st[k] = Overlay(base, n)[k]
                 /\ SeqAt(n) >= Trace[l].rep
                 /\ lo' = n
-           /\ UNCHANGED <<ents, nseq, base, wr, stalled, once, busy>>
-TQuiesce == Ev("quiesce") /\ wr = 0 /\ UNCHANGED <<ents, nseq, base, lo, rep, wr, stalled, once, busy>>
+           /\ UNCHANGED <<ents, nseq, base, wr, stalled, extra, busy>>
+TQuiesce == Ev("quiesce") /\ wr = 0 /\ UNCHANGED <<ents, nseq, base, lo, rep, wr, stalled, extra, busy>>
 \* rcount is the replica engine's own sequence counter = how many entries it was handed since it was created: exactly once
 \* each (a skipped entry that a later write covers, or an entry applied twice, is invisible in the state but not here)
 TConv == /\ Ev("conv") /\ lo = Len(ents)
-         /\ (once => Trace[l].rcount = Len(ents))
+         /\ Trace[l].rcount = Len(ents) + extra
          /\ \A k \in TKeys : Trace[l].pst[k] = Overlay(None, Len(ents))[k]
-         /\ UNCHANGED <<ents, nseq, base, lo, rep, wr, stalled, once, busy>>
+         /\ UNCHANGED <<ents, nseq, base, lo, rep, wr, stalled, extra, busy>>
 
 (* C15 *)
 Cl == IF "c" \in DOMAIN Trace[l] THEN Trace[l].c ELSE "driver"     \* the sequential driver of repl-fault has no name
 TFault == /\ Ev("fault") /\ busy = {} /\ stalled' = stalled + (IF Trace[l].mode = "norecv" THEN 1 ELSE 0)
-          /\ UNCHANGED <<ents, nseq, base, lo, rep, wr, busy, once>>
-TInv == Ev("inv") /\ Cl \notin busy /\ busy' = busy \cup {Cl} /\ UNCHANGED <<ents, nseq, base, lo, rep, wr, stalled, once>>
-TRet == Ev("ret") /\ Cl \in busy /\ busy' = busy \ {Cl} /\ UNCHANGED <<ents, nseq, base, lo, rep, wr, stalled, once>>
+          /\ UNCHANGED <<ents, nseq, base, lo, rep, wr, busy, extra>>
+TInv == Ev("inv") /\ Cl \notin busy /\ busy' = busy \cup {Cl} /\ UNCHANGED <<ents, nseq, base, lo, rep, wr, stalled, extra>>
+TRet == Ev("ret") /\ Cl \in busy /\ busy' = busy \ {Cl} /\ UNCHANGED <<ents, nseq, base, lo, rep, wr, stalled, extra>>
 \* n operations of client c were invoked and returned in time (full-rate writers are not logged one by one)
-TOps == Ev("ops") /\ Cl \notin busy /\ Trace[l].n >= 0 /\ UNCHANGED <<ents, nseq, base, lo, rep, wr, busy, stalled, once>>
+TOps == Ev("ops") /\ Cl \notin busy /\ Trace[l].n >= 0 /\ UNCHANGED <<ents, nseq, base, lo, rep, wr, busy, stalled, extra>>
 \* KNOWN FINDING KF_C15_stalled_reader_blocks_primary: while a client that never reads its stream is attached, a
 \* primary operation does not return (stream.Send inside the log append path, under the storage write lock)
 THangStalled == /\ KF_StallBlocksWrite /\ Ev("hang") /\ Cl \in busy /\ stalled > 0
-                /\ UNCHANGED <<ents, nseq, base, lo, rep, wr, busy, stalled, once>>
-TTopo == Ev("topo") /\ busy = {} /\ Trace[l].dropped /\ UNCHANGED <<ents, nseq, base, lo, rep, wr, busy, stalled, once>>
+                /\ UNCHANGED <<ents, nseq, base, lo, rep, wr, busy, stalled, extra>>
+TTopo == Ev("topo") /\ busy = {} /\ Trace[l].dropped /\ UNCHANGED <<ents, nseq, base, lo, rep, wr, busy, stalled, extra>>
 \* KNOWN FINDING KF_C15_stalled_reader_not_dropped: the session's activity time-stamp is refreshed by the primary's own
 \* (buffered) sends, so a client that never reads is never timed out
 TTopoStalledStays == /\ KF_StallNotDropped /\ Ev("topo") /\ ~Trace[l].dropped /\ stalled > 0
-                     /\ UNCHANGED <<ents, nseq, base, lo, rep, wr, busy, stalled, once>>
-THConv == Ev("hconv") /\ busy = {} /\ Trace[l].ok /\ UNCHANGED <<ents, nseq, base, lo, rep, wr, busy, stalled, once>>
+                     /\ UNCHANGED <<ents, nseq, base, lo, rep, wr, busy, stalled, extra>>
+THConv == Ev("hconv") /\ busy = {} /\ Trace[l].ok /\ UNCHANGED <<ents, nseq, base, lo, rep, wr, busy, stalled, extra>>
 \* normal end of a fault scenario: nothing is outstanding
-TEnd == Ev("end") /\ busy = {} /\ UNCHANGED <<ents, nseq, base, lo, rep, wr, busy, stalled, once>>
+TEnd == Ev("end") /\ busy = {} /\ UNCHANGED <<ents, nseq, base, lo, rep, wr, busy, stalled, extra>>
 
 TNext == TReset \/ TW \/ TWRet \/ TPlain \/ TRestart \/ TRestartFromOne \/ TCwr \/ TSample \/ TQuiesce \/ TConv
          \/ TFault \/ TInv \/ TRet \/ TOps \/ THangStalled \/ TTopo \/ TTopoStalledStays \/ THConv \/ TEnd
